@@ -133,6 +133,7 @@ func orStr2(port string) string {
 type reqPools struct {
 	allowed []string
 	near    []string
+	patterns []string // the configured origin patterns, verbatim (a pattern with a wildcard is not an origin)
 	methods []string // as listed (normalised)
 	names   []string // lower-case listed header names
 }
@@ -183,7 +184,7 @@ func poolsOf(c Cfg) reqPools {
 		}
 		return out
 	}
-	return reqPools{allowed: a, near: n, methods: nonEmpty(ms), names: nonEmpty(names)}
+	return reqPools{allowed: a, near: n, patterns: nonEmpty(ss(c.Origins)), methods: nonEmpty(ms), names: nonEmpty(names)}
 }
 
 // genBytes draws an arbitrary byte string (hostile alphabet first).
@@ -209,8 +210,11 @@ func genOriginVal(t *rapid.T, p reqPools) Val {
 		return V(pick(t, "near", p.near))
 	case k < 90:
 		return malformOrigin(t, pick(t, "mbase", p.allowed))
-	case k < 95:
+	case k < 93:
 		return V("https://unrelated.example")
+	case k < 96 && len(p.patterns) > 0:
+		// the text of a configured pattern, wildcards and all, presented as an Origin
+		return V(pick(t, "patterntext", p.patterns))
 	default:
 		return V(genBytes(t, "originbytes", 24))
 	}
